@@ -122,6 +122,38 @@ def container_census(live: Dict[str, Any] | None = None) -> Dict[str, int]:
     return out
 
 
+def owned_containers(roots: Dict[str, Any]) -> Dict[str, int]:
+    """Sizes of the containers OWNED by the long-lived objects of a way of repeating (the reused Pipeline with its trace
+    driver, orchestrator, transport and stop-watches; the queue master): every dict / list / set / deque reachable through
+    instance attributes of framework objects, keyed by its attribute path (siblings of one collection are summed)."""
+    out: Dict[str, int] = {}
+    seen = set()
+    kinds = (dict, list, set, frozenset, collections.deque)
+
+    def is_fw(o) -> bool:
+        m = getattr(type(o), "__module__", "") or ""
+        return hasattr(o, "__dict__") and not isinstance(o, type) and (m.startswith("semantiva") or m.startswith("verif") or m == "abc")
+
+    def walk(o, path, depth):
+        if id(o) in seen or depth > 6:
+            return
+        seen.add(id(o))
+        if isinstance(o, kinds) or isinstance(o, tuple):
+            if not isinstance(o, tuple):
+                out[path] = out.get(path, 0) + len(o)
+            items = list(o.values()) if isinstance(o, dict) else list(o)
+            for x in items[:200]:
+                if is_fw(x) or isinstance(x, kinds) or isinstance(x, tuple):
+                    walk(x, path + "[]", depth + 1)
+        elif is_fw(o):
+            for k, v in list(vars(o).items()):
+                if is_fw(v) or isinstance(v, kinds) or isinstance(v, tuple):
+                    walk(v, f"{path}.{k}", depth + 1)
+    for name, r in roots.items():
+        walk(r, name, 0)
+    return out
+
+
 def one_mode(job) -> Dict[str, Any]:
     from .. import seams
     seams.setup()
@@ -147,8 +179,10 @@ def one_mode(job) -> Dict[str, Any]:
     runner = None
     cleanup = lambda: None
     live: Dict[str, Any] = {}
+    roots: Dict[str, Any] = {}
     if mode == "reused":
         p = Pipeline(nodes)
+        roots["Pipeline"] = p
         runner = lambda: p.process(payload())
     elif mode == "fresh":
         runner = lambda: Pipeline(nodes).process(payload())
@@ -163,6 +197,7 @@ def one_mode(job) -> Dict[str, Any]:
             runner = lambda: Pipeline(nodes, trace=JsonlTraceDriver(tdir, detail="hash")).process(payload())
         else:
             p3 = Pipeline(nodes, trace=JsonlTraceDriver(tdir, detail="hash"))
+            roots["Pipeline"] = p3
             runner = lambda: p3.process(payload())
     elif mode == "cli":
         # the command-line way: the same pipeline FILE (declaring its extensions) is loaded and launched again and again
@@ -188,6 +223,7 @@ def one_mode(job) -> Dict[str, Any]:
     elif mode == "launch":
         # exactly what cli._run does: one Pipeline object, set_run_metadata + process per planned run
         p2 = Pipeline(nodes)
+        roots["Pipeline"] = p2
 
         def runner():
             p2.set_run_metadata({"run_space_index": 0, "run_space_context": {}})
@@ -203,6 +239,7 @@ def one_mode(job) -> Dict[str, Any]:
         live["InMemorySemantivaTransport._queues(channel-table)"] = tr._queues
         lg = Logger()
         master = QueueSemantivaOrchestrator(transport=tr, logger=lg)
+        roots["QueueSemantivaOrchestrator"] = master
         stop = threading.Event()
         mt = threading.Thread(target=master.run_forever, daemon=True)
         wt = threading.Thread(target=worker_loop, args=(0, tr, SequentialSemantivaExecutor(), stop, lg, 0.002), daemon=True)
@@ -238,7 +275,10 @@ def one_mode(job) -> Dict[str, Any]:
             while done < cp:
                 runner()
                 done += 1
-            samples[cp] = {"registry": registry_sizes(), "instances": instance_census(), "containers": container_census(live)}
+            cont = container_census(live)
+            for k_, v_ in owned_containers(roots).items():
+                cont.setdefault(k_, v_)
+            samples[cp] = {"registry": registry_sizes(), "instances": instance_census(), "containers": cont}
     finally:
         cleanup()
         _shutil.rmtree(_priv, ignore_errors=True)
